@@ -528,58 +528,52 @@ fn exec_once(workers: usize, cap: usize, threads: u8, api: u8, plan: &[PStep], n
 /// is decided only after 8 s without the task having started while it is still counted as
 /// queued (the supervisor re-runs a failing case in a fresh worker before reporting it).
 fn run_pingpong(ctx: &mut Ctx, workers: u8, rounds: u16, pauses: &[u8]) {
-    let Some(rt) = build_rt(4) else {
+    let Some(rt) = build_rt(2) else {
         ctx.skip("cannot build a tokio runtime");
         return;
     };
     let workers = workers.clamp(1, 4) as usize;
     let pauses: Vec<u8> = if pauses.is_empty() { vec![3] } else { pauses.to_vec() };
-    // several executors are played at once: a round costs one idle-poll period of an executor
-    // whatever their number, so this multiplies the attempts per second
-    const EXECS: usize = 8;
     let out = rt.block_on(async move {
-        let mut execs = vec![];
-        for _ in 0..EXECS {
-            match WorkStealingExecutor::new(workers, 64) {
-                Ok(e) => execs.push(e),
-                Err(e) => return Err(format!("{e}")),
-            }
-        }
-        let done: Vec<Arc<AtomicU64>> = (0..EXECS).map(|_| Arc::new(AtomicU64::new(0))).collect();
-        let mut accepted = [0u64; EXECS];
-        let mut lost: Option<(u16, usize, usize, bool)> = None;
+        let exec = match WorkStealingExecutor::new(workers, 64) {
+            Ok(e) => e,
+            Err(e) => return Err(format!("{e}")),
+        };
+        let done = Arc::new(AtomicU64::new(0));
+        let mut accepted = 0u64;
+        let mut lost: Option<(u16, usize, bool)> = None;
         'rounds: for i in 0..rounds {
-            for (x, exec) in execs.iter().enumerate() {
-                let p = pauses[(i as usize + x * 5) % pauses.len()] as u32;
-                for _ in 0..p * 20 {
-                    std::hint::spin_loop();
-                }
-                if p % 4 == 0 {
-                    tokio::task::yield_now().await;
-                }
-                let d = done[x].clone();
-                if exec
-                    .submit_closure(move || {
-                        Box::pin(async move {
-                            d.fetch_add(1, SeqCst);
-                            Ok(())
-                        }) as BoxFut<ZResult<()>>
-                    })
-                    .is_ok()
-                {
-                    accepted[x] += 1;
-                }
+            let p = pauses[i as usize % pauses.len()] as u32;
+            for _ in 0..p * 60 {
+                std::hint::spin_loop();
             }
+            if p % 4 == 0 {
+                tokio::task::yield_now().await;
+            }
+            if p % 16 == 5 {
+                tokio::time::sleep(Duration::from_micros(300)).await;
+            }
+            let d = done.clone();
+            if exec
+                .submit_closure(move || {
+                    Box::pin(async move {
+                        d.fetch_add(1, SeqCst);
+                        Ok(())
+                    }) as BoxFut<ZResult<()>>
+                })
+                .is_err()
+            {
+                continue;
+            }
+            accepted += 1;
             let t0 = std::time::Instant::now();
             loop {
-                let pending: Vec<usize> = (0..EXECS).filter(|&x| done[x].load(SeqCst) < accepted[x]).collect();
-                if pending.is_empty() {
+                if done.load(SeqCst) >= accepted {
                     break;
                 }
                 let el = t0.elapsed();
                 if el > Duration::from_secs(8) {
-                    let x = pending[0];
-                    lost = Some((i, x, execs[x].total_queued(), execs[x].is_idle()));
+                    lost = Some((i, exec.total_queued(), exec.is_idle()));
                     break 'rounds;
                 }
                 if el < Duration::from_micros(200) {
@@ -588,17 +582,11 @@ fn run_pingpong(ctx: &mut Ctx, workers: u8, rounds: u16, pauses: &[u8]) {
                     tokio::time::sleep(Duration::from_millis(1)).await;
                 }
             }
-            // let every executor go idle again before the next round
-            if pauses[i as usize % pauses.len()] % 8 == 5 {
-                tokio::time::sleep(Duration::from_micros(300)).await;
-            }
         }
         if lost.is_none() {
-            for e in execs {
-                let _ = e.shutdown().await;
-            }
+            let _ = exec.shutdown().await;
         }
-        Ok((accepted.iter().sum::<u64>(), lost))
+        Ok((accepted, lost))
     });
     rt.shutdown_background();
     match out {
@@ -608,8 +596,8 @@ fn run_pingpong(ctx: &mut Ctx, workers: u8, rounds: u16, pauses: &[u8]) {
                 ctx.nontrivial();
             }
             ctx.label(format!("pingpong_workers_{workers}"));
-            if let Some((round, x, queued, idle)) = lost {
-                ctx.fail("exactly_once", "mismatch", "lost_after_idle", format!("round {round}: a task accepted by submit() on idle executor #{x} ({workers} workers) had not started 8 s later; total_queued() = {queued}, is_idle() = {idle}"));
+            if let Some((round, queued, idle)) = lost {
+                ctx.fail("exactly_once", "mismatch", "lost_after_idle", format!("task #{round} was accepted by submit() on an idle executor ({workers} workers) and had not started 8 s later; total_queued() = {queued}, is_idle() = {idle}"));
             }
         }
         Err(e) => ctx.fail("new", "err", "", format!("WorkStealingExecutor::new({workers},64) failed: {e}")),
@@ -1982,7 +1970,7 @@ impl Prop for P {
             q(8, 120),
             0,
             // a round costs about one idle-poll period of the executor (tens of ms): the quick
-            // tier makes ~230 000 attempts (8 executors per round), the thorough tier ~3 million
+            // tier makes ~30 000 attempts, the thorough tier ~400 000
             (1u8..=4, q(400, 2000)..=q(800, 5000), proptest::collection::vec(any::<u8>(), 1..24)).prop_map(|(workers, rounds, pauses)| Case::PingPong { workers, rounds: rounds as u16, pauses }),
         ));
         v.push(Plan::new("ws_exec_1worker", q(2400, 40_000), 0, exec_case(Just(1u8).boxed(), Just(0u8).boxed(), 8)));
